@@ -19,8 +19,17 @@ structure Plm where
   pts : List Pt
   deriving Repr, BEq, Inhabited
 
+/-- insertion into a sorted list (structural recursion, so that concrete instances reduce by `decide`) -/
+def insertPt (x : Pt) : List Pt → List Pt
+  | [] => [x]
+  | y :: t => if ptLe x y then x :: y :: t else y :: insertPt x t
+
+/-- `Vec::sort` on `(from, to)` pairs. `ptLe` is a total order in which ties are identical pairs, so the sorted
+    vector is unique and any sorting algorithm models it; insertion sort is used because it is structurally recursive. -/
+def sortPts (l : List Pt) : List Pt := l.foldr insertPt []
+
 /-- piecewise_linear_map.rs:19-23 `PiecewiseLinearMap::new`: sort the pairs, unzip. -/
-def Plm.new (mappings : List Pt) : Plm := ⟨mappings.mergeSort ptLe⟩
+def Plm.new (mappings : List Pt) : Plm := ⟨sortPts mappings⟩
 
 /-- piecewise_linear_map.rs:33-41 `reverse`: swap every pair and re-sort. -/
 def Plm.reverse (p : Plm) : Plm := Plm.new (p.pts.map fun q => (q.2, q.1))
